@@ -6,6 +6,7 @@ import JinjaV.Wire.LRU
 import JinjaV.Wire.Loop
 import JinjaV.Wire.Stream
 import JinjaV.Wire.Macro
+import JinjaV.Wire.Sandbox
 
 open JinjaV
 
@@ -19,6 +20,8 @@ def dispatch (line : String) : Sx :=
     | "loop" => Wire.Loop.handle args
     | "stream" => Wire.Stream.handle args
     | "macro" => Wire.Macro.handle args
+    | "sbx" => Wire.Sandbox.handle args
+    | "sbx-unblocked" => Wire.Sandbox.handleUnblocked args
     | _ => Sx.bad
   | _ => Sx.bad
 
